@@ -221,6 +221,31 @@ pub fn fam_seq(tier: Tier) -> Vec<Config> {
             }
         }
     }
+    // `Background:` sections without steps (feature level, rule level, both), with and without
+    // hooks: the attempt is what it would be without the section
+    for (fbg, rbg) in [(0usize, 0usize), (1, 0), (0, 1)] {
+        for (before, after) in hooks4() {
+            for nsteps in [0usize, 2] {
+                let mut cfg = base(format!("seq/empty-bg|f{fbg}|r{rbg}|b{}a{}|n{nsteps}", u8::from(before), u8::from(after)));
+                let r1 = RuleSpec { tags: vec![], bg: vec![M; rbg], scenarios: vec![scen(&[], &vec![M; nsteps])] };
+                cfg.feats = vec![FeatSpec {
+                    tags: vec!["empty-bg".into()],
+                    bg: vec![M; fbg],
+                    // (at least one step here: the gherkin crate attaches what follows a step-less
+                    // scenario at feature level - the rule and its background - to that scenario)
+                    scenarios: vec![scen(&[], &vec![M; nsteps.max(1)])],
+                    rules: vec![r1],
+                }];
+                cfg.items = vec![Item::Feat(0)];
+                cfg.before = before;
+                cfg.after = after;
+                cfg.conc_builder = Some(Some(1));
+                cfg.plan.gates = GateMode::Steps;
+                cfg.max_execs = 200;
+                out.push(cfg);
+            }
+        }
+    }
     // two rules of one feature that share their name (or have none) but not their background
     for tag in ["twin-rules", "unnamed-rules"] {
         for bg2 in [0usize, 2] {
